@@ -3,3 +3,7 @@
 
 def orientation_clauses(reg, prop, tier):
     pass
+
+
+def magnetic_clauses(reg, prop, tier):
+    pass
